@@ -27,9 +27,16 @@ RULE = ("random ADMGs with 1-5 nodes x conjunctions of 1-4 counterfactual events
         "has a counterfactual world, the graph has an edge and ID* went past line 3 (it built a counterfactual graph) "
         "and answered with an estimand, Zero from line 5, or 'unidentifiable'.")
 ASSUMPTIONS = [
-    "soundness (estimand = P(event)) and zero-soundness beyond lines 2, 3 and 5 have NO theorem (F10: the implementation is "
-    "wrong on ~10% of random events): decided by correspondence + exact evaluation on 8 sampled functional SCMs per case "
-    "(cardinalities 2-3); the known wrong answers are listed in known_findings.jsonl",
+    "soundness is a THEOREM on the named fragment InFragment (Props/C07.lean idstar_sound_fragment, idstar_answers_fragment; "
+    "decidable test inFragmentB = in_fragment() below): events all of whose keys carry one subscript set, with unstarred values "
+    "and unstarred subscripts (the interventional queries P(y_x), conjunctions allowed): for every functional SCM compatible "
+    "with the graph (normalised noise, mechanisms bounded by a finite domain) the returned expression, read by `cden` "
+    "(Lemmas/CfDen.lean: the reading of the property), equals P(event), and ID* always answers. The harness reports how many "
+    "generated cases fall in the fragment (tags in_fragment, in_fragment_past_line3: ~30% / ~23% of the quick stream) and "
+    "treats ANY oracle failure inside it as a violation regardless of the finding keys (key IN-FRAGMENT is never listed)",
+    "OUTSIDE the fragment soundness (estimand = P(event)) and zero-soundness beyond lines 2, 3 and 5 have NO theorem (F10: the "
+    "implementation is wrong on ~10% of random events): decided by correspondence + exact evaluation on 8 sampled functional "
+    "SCMs per case (cardinalities 2-3); the known wrong answers are listed in known_findings.jsonl",
     "reading of an estimand: a free outcome variable takes the event's value for that variable; when the event gives the "
     "variable both values (x in one world, x' in another) the reading is ambiguous and the oracle accepts the estimand if "
     "SOME choice (per leaf) works in all sampled models; subscripts: +X is the literal x'; -X is the value bound by an "
@@ -482,13 +489,18 @@ MANIFEST = {
              "a well-formed event the only outcomes are an estimand, Zero, 'unidentifiable' or the model's fuel bound (the "
              "RuntimeError of line 6, the null-graph error of nx.is_connected, ValueError/NetworkXError of the helpers are "
              "unreachable); an answer reached with some fuel is not changed by more fuel; every leaf of a returned estimand is a "
-             "single-world interventional term (C06 part); Zero returned by line 5 is sound (by C18's cg_prob). Soundness of the returned estimand and of Zero from line 6 has NO "
+             "single-world interventional term (C06 part); Zero returned by line 5 is sound (by C18's cg_prob). TERMINATION is proved "
+             "(idstar_terminates / idstar_outcomes: 2|V|+3 units of fuel are never exhausted; the outcomes are an estimand, Zero or "
+             "'unidentifiable', nothing else). SOUNDNESS is proved on the named fragment InFragment (all keys in one world, unstarred "
+             "values and subscripts: the queries P(y_x)): idstar_sound_fragment -- in every compatible functional SCM the returned "
+             "expression equals P(event) -- and idstar_answers_fragment (ID* never refuses there); the proof goes through the product "
+             "structure of the noise space, local mechanism events, the c-component factorisation over the districts of the "
+             "counterfactual graph and marginalisation. Outside the fragment soundness of the returned estimand and of Zero from line 6 has NO "
              "theorem; on the current tree it is false (F10): the check decides it by correspondence with the real code plus "
              "exact evaluation on sampled functional SCMs, locates every wrong answer in the recursion of the real code and lists the "
-             "known defect patterns (F10/M1-M5, D1-D2) as open findings; a wrong step that shows none of them is a new violation. Termination of the line-6 recursion is by fuel in the model (never exhausted on any generated "
-             "input), not proved."),
+             "known defect patterns (F10/M1-M5, D1-D2) as open findings; a wrong step that shows none of them is a new violation; any failure inside the fragment is a violation whatever its key."),
     "note": ("Trusted: Lean kernel + standard axioms; the hand-written models tied to the code by differential testing under "
              "all set-iteration orders; the reading convention of estimands stated in ASSUMPTIONS; sampled models (8 per "
              "case). One small defect was fixed (line 9 marginalisation, 4295b26); the F10 family stays open: 16 finding keys (failure kind x step of the blamed recursive call x known defect pattern), each with a minimal example."),
-    "technique": "Lean 4 theorems (lines 2-3 over all functional SCMs, error taxonomy, vocabulary invariant) + differential correspondence + exact-rational functional-SCM oracle + shrunk known findings",
+    "technique": "Lean 4 theorems (termination; soundness on the single-world unstarred fragment over all functional SCMs; lines 2-3-5; error taxonomy; vocabulary invariant) + differential correspondence + exact-rational functional-SCM oracle + located known findings",
 }
